@@ -14,7 +14,7 @@ graph closure comes from the catalogue term (RefGraph), never from cylc.
 """
 from __future__ import annotations
 
-from typing import Dict, List, Optional, Set, Tuple
+from typing import List, Optional, Tuple
 
 from .catalogue import RefGraph, optional_outputs
 from .mon_c19 import Counters, bounded_ref, db_params
